@@ -4,7 +4,6 @@ CONSTANTS
   Family = "nest"
   MaxDepth = 0
   Depth = 24
-  ProgTab <- MCProgTab
 SPECIFICATION GSpec
 CONSTRAINT EmitBeh
 CHECK_DEADLOCK FALSE
